@@ -76,6 +76,8 @@ class Index:
     cardinality = 1
     enabled = True
     prefix = b""
+    # what follows the indexed value in a key: 00 + created_at(4) + 00 + id(32)
+    suffix_len = 38
 
     def __init__(self):
         self.hits = self.misses = 0
@@ -169,9 +171,9 @@ class Index:
 
                     # only a key of exactly this value (match + 00 + time + 00 + id) is in
                     # time order; a longer value sharing the prefix says nothing about the rest
+                    exact = len(key) == matchlen + self.suffix_len
                     if key[:matchlen] != match or (
-                        len(key) == matchlen + 38
-                        and ((since and ts < since) or (until and ts > until))
+                        exact and ((since and ts < since) or (until and ts > until))
                     ):
                         match, skipped = next_match()
 
@@ -186,9 +188,11 @@ class Index:
                         else:
                             break
 
-                    event_id = key[-32:]
-                    if event_id in events:
-                        yield event_id
+                    # keys of longer values are not candidates: they would come out of time order
+                    if exact:
+                        event_id = key[-32:]
+                        if event_id in events:
+                            yield event_id
                     if not prev():
                         break
                     key = bytes(get_key())
@@ -213,6 +217,7 @@ class Index:
 class IdIndex(Index):
     prefix = b"\x00"
     cardinality = 1000
+    suffix_len = 0
 
     def to_key(self, value) -> bytes:
         return self.prefix + bytes_from_hex(value)
